@@ -52,16 +52,29 @@ func c49(c *Ctx) {
 			eq := Truth(BinOpV(token.EQL, pField("srcAddr"), pField("dstAddr")), true)
 			lb := Truth(CallRes(CalleeX("net/netip", "Addr.IsLoopback"), 0), true)
 			nSame, nExt := 0, 0
-			for i, e := range ph.Edges {
-				for _, fs := range incomingFacts(ph.Block().Preds[i], ph.Block()) {
-					_, a := hasFact(fs, eq)
-					_, b := hasFact(fs, lb)
+			// the leaves of the phi tree (a join in front of the use adds a level), each judged on the
+			// block it comes from: "same" only inside an arm entered under one of the two tests,
+			// "external" only where both are known to have failed
+			seenPh := map[*ssa.Phi]bool{}
+			var walkPh func(q *ssa.Phi)
+			walkPh = func(q *ssa.Phi) {
+				if seenPh[q] {
+					return
+				}
+				seenPh[q] = true
+				for i, e := range q.Edges {
+					if qq, isPhi := e.(*ssa.Phi); isPhi {
+						walkPh(qq)
+						continue
+					}
+					pred := q.Block().Preds[i]
 					switch {
 					case same(e):
 						nSame++
-						okT = okT && (a || b)
+						okT = okT && underArm(pred, eq, lb)
 					case ext(e):
 						nExt++
+						fs := append(append([]Fact(nil), FactsAtBlock(pred)...), edgeOnlyFacts(pred, q.Block())...)
 						_, na := hasFact(fs, Truth(BinOpV(token.EQL, pField("srcAddr"), pField("dstAddr")), false))
 						_, nb := hasFact(fs, Truth(CallRes(CalleeX("net/netip", "Addr.IsLoopback"), 0), false))
 						okT = okT && na && nb
@@ -70,6 +83,7 @@ func c49(c *Ctx) {
 					}
 				}
 			}
+			walkPh(ph)
 			okT = okT && nSame >= 1 && nExt == 1
 		}
 		c.Expect(okT, t, lk, "source-type-classification", "source type is not same-or-loopback exactly when srcAddr == dstAddr or the source is loopback")
